@@ -684,7 +684,7 @@ def sub_blocks(ctx):
     ctx["classes"].update({"blocks." + k: n for k, n in cov.items()})
     ctx["evaluations"] += sz["traces"]
     ctx["traces_ok"] += sz["traces"] - (len(v.violations) - before)
-    if failing == 0:
+    if failing == 0 and len(v.violations) == before:
         raise Infra("clause (c): no failing transaction in the generated histories")
     log("clauses (b)/(c): %d block histories, %d failing transactions among them (classes %s), EndBlock never panicked" % (
         sz["traces"], failing, {k: n for k, n in cov.items() if k.startswith("eth.")}))
